@@ -148,7 +148,8 @@ class Sec:
         """Length set of the type as seen by a container (delimited: header + {0,8,..,extent})."""
         if self.sealed:
             return self.inner
-        assert self.extent is not None
+        if not (self.extent is not None):  # not an assert statement: workers may run under python -O
+            raise AssertionError('self.extent is not None')
         return B.Cat(B.Leaf({HEADER_WIDTH}), B.Rng(B.Leaf({8}), self.extent // 8))
 
     def offsets(self, base: B.Node) -> list[tuple[str | None, list, B.Node]]:
